@@ -502,8 +502,9 @@ coap_free_resource(coap_resource_t *resource) {
   }
 
   if (resource->context->resource_deleted)
-    resource->context->resource_deleted(resource->context, resource->uri_path,
-                                        resource->context->observe_user_data);
+    coap_lock_callback(resource->context,
+                       resource->context->resource_deleted(resource->context, resource->uri_path,
+                                                           resource->context->observe_user_data));
 
   if (resource->context->release_userdata && resource->user_data) {
     coap_lock_callback(resource->context, resource->context->release_userdata(resource->user_data));
@@ -518,8 +519,9 @@ coap_free_resource(coap_resource_t *resource) {
   /* free all elements from resource->subscribers */
   LL_FOREACH_SAFE(resource->subscribers, obs, otmp) {
     if (resource->context->observe_deleted)
-      resource->context->observe_deleted(obs->session, obs,
-                                         resource->context->observe_user_data);
+      coap_lock_callback(resource->context,
+                         resource->context->observe_deleted(obs->session, obs,
+                                                            resource->context->observe_user_data));
     /* Stop retransmitting notifications that are still queued for this observer */
     coap_cancel_all_messages(resource->context, obs->session,
                              &obs->pdu->actual_token);
@@ -578,8 +580,9 @@ coap_add_resource_lkd(coap_context_t *context, coap_resource_t *resource) {
                      context->unknown_pdu->hdr_size;
       raw_packet.length = context->unknown_pdu->used_size +
                           context->unknown_pdu->hdr_size;
-      context->dyn_resource_added(context->unknown_session, resource->uri_path,
-                                  &raw_packet, context->observe_user_data);
+      coap_lock_callback(context,
+                         context->dyn_resource_added(context->unknown_session, resource->uri_path,
+                                                     &raw_packet, context->observe_user_data));
     }
 #endif /* COAP_WITH_OBSERVE_PERSIST */
   }
@@ -969,21 +972,23 @@ coap_add_observer(coap_resource_t *resource,
            request->token - request->hdr_size, request->hdr_size);
     raw_packet.s = s->pdu->token - request->hdr_size;
     raw_packet.length = s->pdu->used_size + request->hdr_size;
-    session->context->observe_added(session, s, session->proto,
-                                    &session->endpoint->bind_addr,
-                                    &session->addr_info,
-                                    &raw_packet,
-                                    oscore_info,
-                                    session->context->observe_user_data);
+    coap_lock_callback(session->context,
+                       session->context->observe_added(session, s, session->proto,
+                                                       &session->endpoint->bind_addr,
+                                                       &session->addr_info,
+                                                       &raw_packet,
+                                                       oscore_info,
+                                                       session->context->observe_user_data));
 #if COAP_OSCORE_SUPPORT
     coap_delete_bin_const(oscore_info);
 #endif /* COAP_OSCORE_SUPPORT */
   }
   if (resource->context->track_observe_value) {
     /* Track last used observe value (as app handler is called) */
-    resource->context->track_observe_value(resource->context,resource->uri_path,
-                                           resource->observe,
-                                           resource->context->observe_user_data);
+    coap_lock_callback(resource->context,
+                       resource->context->track_observe_value(resource->context,resource->uri_path,
+                                                              resource->observe,
+                                                              resource->context->observe_user_data));
   }
 
   return s;
@@ -1023,8 +1028,9 @@ coap_delete_observer_internal(coap_resource_t *resource, coap_session_t *session
                    s->cache_key->key[2], s-> cache_key->key[3]);
   }
   if (session->context->observe_deleted)
-    session->context->observe_deleted(session, s,
-                                      session->context->observe_user_data);
+    coap_lock_callback(session->context,
+                       session->context->observe_deleted(session, s,
+                                                         session->context->observe_user_data));
 
   if (resource->subscribers) {
     LL_DELETE(resource->subscribers, s);
@@ -1091,7 +1097,8 @@ coap_delete_observers(coap_context_t *context, coap_session_t *session) {
     LL_FOREACH_SAFE(resource->subscribers, s, tmp) {
       if (s->session == session) {
         if (context->observe_deleted)
-          context->observe_deleted(session, s, context->observe_user_data);
+          coap_lock_callback(context,
+                             context->observe_deleted(session, s, context->observe_user_data));
         assert(resource->subscribers);
         LL_DELETE(resource->subscribers, s);
         coap_session_release_lkd(session);
@@ -1341,9 +1348,10 @@ coap_resource_notify_observers_lkd(coap_resource_t *r,
   if (r->context->track_observe_value) {
     /* Track last used observe value */
     if ((r->observe % r->context->observe_save_freq) == 0)
-      r->context->track_observe_value(r->context, r->uri_path,
-                                      r->observe,
-                                      r->context->observe_user_data);
+      coap_lock_callback(r->context,
+                         r->context->track_observe_value(r->context, r->uri_path,
+                                                         r->observe,
+                                                         r->context->observe_user_data));
   }
 
   r->context->observe_pending = 1;
